@@ -225,6 +225,7 @@ def protocol_get_model(ctx, repo, rule):
 
             def wait(a2, k2, idx=idx):
                 log.append(("wait", idx, state["held"], len(requests)))
+                state["clock"] = state.get("clock", 500.0) + 1.0
                 return answer_at is not None and idx == answer_at
             r.attrs["wait_for_response"] = Native(wait, "wait_for_response")
             requests.append(r)
@@ -235,7 +236,10 @@ def protocol_get_model(ctx, repo, rule):
             nm = getattr(callee, "name", "")
             if nm in ("asyncio.sleep",) or getattr(getattr(callee, "fi", None), "name", "") == "config_sleep":
                 log.append(("pause", state["held"]))
+                state["clock"] = state.get("clock", 500.0) + 1.0
                 return None
+            if nm in ("time.monotonic", "time.time", "time.perf_counter"):
+                return state.get("clock", 500.0)     # the model clock: a wait or a pause takes a second
             return NotImplemented
         it.call_hook = hook
         it.globals["GeckoConfig"] = Obj(cfgmod.classes.get("_GeckoIdleConfig"))
